@@ -182,3 +182,5 @@ pub fn hex(b: &[u8]) -> String {
 pub fn parses(src: &str) -> bool {
     std::panic::catch_unwind(|| parse(src).is_ok()).unwrap_or(false)
 }
+
+pub fn show_type(cp: &CompiledProgram) -> String { quiver_core::format::format_type_by_id(&cp.program, cp.result_type) }
